@@ -2,7 +2,7 @@
 # usage: tools/confirm_mutant.sh <Cxx> <i>    — re-verifies an agent-made mutant in its scratch worktree and files it under /verif/seeded/
 set -u
 id="$1"; i="$2"
-wt=/tmp/mut/$id; out=/tmp/mut/$id-out
+B=${MUTBASE:-/tmp/mut}; wt=$B/$id; out=$B/$id-out
 cd "$wt" || exit 2
 git checkout -q -- . ; rm -f tests/m${i}_demo.rs
 log=$(mktemp)
